@@ -79,3 +79,12 @@ Theorem c18_sphere_is_one_spat :
   get_in run64 "solid_angle" "spat" (dbl64 (dbl64 PI64)) = lit_bits run64 1 0
   /\ get_in run32 "solid_angle" "spat" (dbl32 (dbl32 PI32)) = lit_bits run32 1 0.
 Proof. split; vm_compute; reflexivity. Qed.
+
+(* ---- every angle / ratio function of the source is the storage type's function of the same name applied to the stored value,
+   wrapped as a ratio (into) or as radians / a ratio (Gen/DelegSrc.v is regenerated from src/si/angle.rs and ratio.rs on every run) ---- *)
+From Coq Require Import String.
+From UomV Require Import Model.DelegSrc Gen.DelegSrc Spec.DelegTie.
+Theorem c18_angle_ratio_sources_are_direct :
+  forallb (fun e => negb (String.eqb (dl_file e) "src/si/angle.rs" || String.eqb (dl_file e) "src/si/ratio.rs") || deleg_ok e) src_delegations = true
+  /\ covers src_delegations "src/si/angle.rs" ("atan2"%string :: angle_fns) && covers src_delegations "src/si/ratio.rs" (ratio_to_angle ++ ratio_to_ratio) = true.
+Proof. split; vm_compute; reflexivity. Qed.
